@@ -616,6 +616,43 @@ Proof.
   - apply mix_row_nonneg; auto; rewrite Hw; auto.
 Qed.
 
+(* the label formula for ARBITRARY rational label rows (multi-hot, unnormalised, all-zero, negative, -1 markers):
+   entry j of the emitted row is  w * y_i[j] + (1 - w) * y_p[j]  -- nothing is rescaled or renormalised *)
+Lemma mix_row_length w a b : length a = length b -> length (mix_row w a b) = length a.
+Proof.
+  revert b. induction a as [|x a IH]; intros [|y b] L; simpl in *; try lia. rewrite IH by lia. reflexivity.
+Qed.
+
+Lemma mix_row_nth w a b j : length a = length b -> (j < length a)%nat ->
+  nth j (mix_row w a b) 0%Q = (w * nth j a 0 + (1 - w) * nth j b 0)%Q.
+Proof.
+  revert b j. induction a as [|x a IH]; intros [|y b] j L Hj; simpl in *; try lia.
+  destruct j; [reflexivity|]. apply IH; lia.
+Qed.
+
+Lemma mixed_label_is_convex_combination_of_rows_l c hv tr r tr' (Y : list (list Q)) :
+  cfg_ok c -> trace_ok tr -> halves_ok hv -> collate c hv tr = Ok (r, tr') ->
+  forall ls, labs r = Some ls ->
+  exists perm, (shuf c = Random -> bsz c <> 1%nat -> In (DPerm perm) tr /\ Permutation perm (seq 0 (bsz c))) /\
+    forall i, (i < bsz c)%nat ->
+      let p := mode_partner (shuf c) (bsz c) perm i in
+      let row := render_label Y i (nth i ls (0%nat, 0%Q)) in
+      length (nth i Y []) = length (nth p Y []) ->
+      length row = length (nth i Y []) /\
+      forall j, (j < length (nth i Y []))%nat ->
+        (nth j row 0 == lam_of r i * nth j (nth i Y []) 0 + (1 - lam_of r i) * nth j (nth p Y []) 0)%Q.
+Proof.
+  intros Hc Hok Hhv H ls Hls.
+  destruct (p_follows_mode_l _ _ _ _ _ Hok H) as (perm & HP & Hp).
+  exists perm. split; [exact HP|]. intros i Hi p row L.
+  destruct (Hp i Hi) as [Hpart _].
+  rewrite (partner_shared_l _ _ _ _ _ H ls Hls i Hi) in Hpart. inversion Hpart as [Hfst].
+  destruct (weight_shared_l _ _ _ _ _ Hc Hok Hhv H i Hi) as [_ Hw]. specialize (Hw ls Hls).
+  subst row p. unfold render_label. rewrite Hfst. split.
+  - apply mix_row_length; auto.
+  - intros j Hj. rewrite mix_row_nth by auto. rewrite Hw. reflexivity.
+Qed.
+
 (* ---- items other than x / class ---- *)
 Lemma set_at_other {A} k (v : A) l j : j <> k -> nth_error (set_at k v l) j = nth_error l j.
 Proof.
